@@ -83,7 +83,7 @@ def check_errors_not_replaced(ctx, prog):
             if not takes_state:
                 continue
             n += 1
-            ds = errflow.disposition(f, c)
+            ds = errflow.disposition(f, c, same_error=True)
             bad = [d for d in ds if d[0] in ("swallowed", "dropped", "matched-not-propagated")]
             if not bad:
                 continue
